@@ -18,6 +18,9 @@ checks = {
  'C06': dict(level='exploration', tech='runtime monitoring: offline victim-eligibility checker over recorded Evict(EvictionMetadata) and placement events',
    text='Held on N generated histories with preemptible/non-preemptible mixes, priorities around the boundary, queue trees with min-runtimes (queue and LCA resolution), elastic victims: no non-preemptible or protected victim, preempt victims same queue and strictly lower priority, reclaim victims other queue, every eviction accompanied by a placement of its preemptor in the same action, consolidation victims re-nominated elsewhere.',
    note='Min-runtime verdicts only when the start time is > 5 min from the boundary. Known finding (open): consolidation ignores min-runtime.', ref='4/C06'),
+ 'C07': dict(level='exploration', tech='runtime monitoring: offline reclaim-contract checker over recorded reclaim statement commits (Evict/TaskPipelined events stamped with the commit id by the statement hook), a running per-queue allocation model recomputed from API objects, and the fair share read from the proportion plugin hook',
+   text='Held on N generated multi-cycle histories with 1-3 level queue trees (quotas incl. 0 / fractional / unlimited, limits, over-quota weights, priorities, saturation multipliers 1 / 1.2 / 2), over-subscribed clusters and multi-victim reclaims: no reclaim decision took from a queue (lifted to the divergence level) that was within deserved quota in every resource before its last victim, the reclaimer queue ended within fair share in the received resources, a non-preemptible reclaimer stayed within deserved quota at every level, and no reclaimer ancestor ended above fair share and at least as saturated as a sibling it took from.',
+   note='Fair share is taken from the scheduler (C09 checks its computation). Decisions are judged only when harness and scheduler agree on the allocation at session open; deserved is capped by the limit; float ties in saturation ratios are flagged only for exactly representable allocations.', ref='4/C07'),
  'C08': dict(level='exploration', tech='runtime monitoring: online running-sum checker of per-queue allocation over the recorded event order',
    text='Held on N generated histories with limits/quotas incl. 0, fractional and ancestor-only: after every bind/nomination the allocation (recomputed from pod specs, rolled up the queue tree) of the queue and each ancestor stays within its limit, and the non-preemptible part within deserved quota.',
    note='Cycles with a failed Bind/Evict call are not judged; terminating pods are not charged (weaker than the scheduler, hence sound); flattened queue tree when full-hierarchy-fairness is off.', ref='4/C08'),
@@ -30,12 +33,18 @@ checks = {
  'C10': dict(level='exploration', tech='runtime monitoring: crash / hang oracle (in-process recover, worker-process exit, per-case watchdog with goroutine-dump triage) plus control-workload oracle over real scheduler cycles on mutated (malformed) API objects',
    text='Held on N generated clusters each carrying 1-5 of 28 malformed-object mutations (queue self-parent / 2- and 3-cycles / missing parents / nil resources / absurd quotas, invalid sub-group graphs, non-positive or huge minimums, pods without containers or pod group, garbage / NaN / Inf / overflow GPU annotations, label-less or zero / negative / empty-capacity nodes, dangling BindRequests, level-less topologies, missing priority classes) plus every 8th case unmutated: two full cycles terminate without panic and a healthy control workload (own queue, own node) is bound.',
    note='Watchdog 20 s per case (~150x a normal cycle); a watchdog without a goroutine inside KAI code is inconclusive. Three genuine defects found and repaired (queue-cycle hang, nil parent queue panic, level-less topology panic).', ref='4/C10'),
+ 'C11': dict(level='fault_enumeration', tech='runtime monitoring with exhaustive fault injection: every client call of the real binder (BindRequestReconciler + Binder + reservation service + gpusharing / DRA / volume plugins) while processing one BindRequest is enumerated and failed (error) or made the last call of the process (crash); state oracle over the API store after the attempt, after clean-up + Sync in a new process, and after a fault-free retry',
+   text='For each of N generated pod shapes (whole GPU, fraction, gpu-memory, multi-fraction, DRA claims, with bystanders, orphan reservation pods, stale labels, pre-existing config maps, init-container fraction, CDI on/off, back-off limits, initial phases): every single fault point (quick) and every pair of fault points (thorough) of the attempt was injected; the pod ended bound to the requested node with side objects in place, or unbound + Failed with side effects removed or removable; never bound twice / elsewhere; Succeeded or already-bound requests are no-ops; a fault-free retry succeeds.',
+   note='API server, kubelet device index and watch replay are emulated by the harness; call order inside a node sync follows Go map order (every index is still hit). PVC binding not exercised. Known findings (open): residues when a rollback step itself fails (second fault).', ref='4/C11'),
  'C13': dict(level='exploration', tech='runtime monitoring: statement lifecycle hooks (build tag verif) + canonical session dump compared after Discard/Rollback; Cache calls of Commit compared with the net effect of the valid operations',
    text='Held (up to the listed known findings) on every statement the real allocate/consolidation/reclaim/preempt actions and their solvers create in N generated multi-cycle cases: dump before the first operation / at each checkpoint equals the dump after Discard / Rollback; each Commit emits at most one eviction and one placement per pod and nothing for undone steps.',
    note='A discard/rollback is judged only when no other statement acted in between. Known findings (open): whole-GPU counters / markers of shared-GPU nodes and statements that re-nominate an evicted shared-GPU pod are not restored exactly.', ref='4/C13'),
  'C14': dict(level='exploration', tech='runtime monitoring: online monitor plugin recomputing node / workload / pod-set / queue accounting from the pods after every Allocate/Deallocate event, plus rebuild of each node with the system constructor',
    text='Held (up to the listed known findings) after every simulated step of every action and solver, after OpenSession and after each action in N generated multi-cycle cases: node Idle/Used/Releasing and per-GPU shared memory vs closed forms over PodInfos and vs a node rebuilt with NewNodeInfo+AddTask, workload Allocated / status index / pod-set counters, queue Allocated and AllocatedNotPreemptible, vector == structured.',
    note='Releasing copies that the scheduler keeps charged without a PodInfos entry are modelled explicitly (both readings accepted when ambiguous); whole-GPU counters compared with the rebuild only when no pipelined/releasing sharer is on the node. Known findings (open): accounting after a shared-GPU pod was evicted and re-nominated in the session.', ref='4/C14'),
+ 'C17': dict(level='exploration', tech='runtime monitoring: Go race detector (-race build, child process per history, reports filtered to binder packages) + porcupine v1.3.0 linearizability check of recorded Reserve/Sync/observe histories per GPU group against a sequential reservation model + quiescent-state invariants, over concurrent real binder processes with PRNG-chosen yields/sleeps, crashes and restarts',
+   text='Held on N generated concurrent histories (2-6 consumers on 1-3 groups, single- and multi-fraction, concurrent reconciles and pod events, bind rejections, process crashes between creating a reservation pod and labelling the consumer, restarts with start-up Sync, external loss of a reservation pod): no data race in binder code, every per-group history linearizable (at most one reservation pod, consumers get its index), at quiescence a reservation pod exists iff a live pod carries the group, no running pod on a group without reservation, ConfigMap device index equals the reservation index.',
+   note='One lock serialises API calls (atomic per-object API server), which also hides races that span client calls; informer lag and resourceVersion conflicts are not modelled. Porcupine time-outs count as inconclusive.', ref='4/C17'),
  'C18': dict(level='exploration', tech='runtime monitoring: metamorphic (reconcile order / multiplicity) and fixpoint (zero mutating calls) oracle over the real PodReconciler on a counting fake client',
    text='Held on N generated owner chains (22 kinds incl. skip-top-owner) with 1-6 sibling pods: same PodGroup for siblings of documented one-group kinds, per-pod for documented per-pod kinds, identical final PodGroups over 4-5 reconcile orders, zero writes once converged, foreign-owned fields never overwritten.',
    note='Grouping keys asserted only as documented in docs/developer/pod-grouper.md. Known finding (open): batch Job pods get one PodGroup each although documented as one per Job.', ref='4/C18'),
